@@ -12,7 +12,9 @@ impl P8E0 {
         if sign {
             ui_a = ui_a.wrapping_neg();
         }
-        let u_a = if ui_a <= 0x40 {
+        let u_a = if ui_a == 0 {
+            return self;
+        } else if ui_a <= 0x40 {
             // 0 <= |pA| < 1 floor to zero.(if not negative and whole number)
             if sign && (ui_a != 0x40) {
                 0x0
